@@ -7,8 +7,8 @@
 # Token syntax: ocaml/drv_c13.ml.
 from . import common, pure
 
-PROOFS = ["proofs/FifoProofs.v", "proofs/StreamOpsProofs.v",
-          "models/Fifo.v", "models/StreamOps.v", "lib/GoSlice.v"]
+PROOFS = ["proofs/FifoProofs.v", "proofs/StreamOpsProofs.v", "proofs/BufferProofs.v",
+          "models/Fifo.v", "models/StreamOps.v", "models/Buffer.v", "lib/GoSlice.v"]
 
 I64MIN, I64MAX = -(1 << 63), (1 << 63) - 1
 
